@@ -5,7 +5,10 @@ R-C33.1  every check_*_enabled function is interpreted with the live module glob
          no module imports the flag by value.  (Truth-table form of the gate body only as fallback.)
 R-C33.2  every gated construct passes its gate: constructor sites of ModifiedBlock /
          DesugaredListComp / TensorCall, the list-display visitors, the `list` type
-         constructor, and capturing closures are dominated by the matching gate call.
+         constructor are dominated by the matching gate call; `check_nested_func_def` is interpreted on all 16 subsets of
+         {two locals of the enclosing function, a parameter, a global} being live at the nested function's entry: the
+         capturing-closures gate is passed iff a local is captured, before the body check, with a use of a captured variable
+         (c33_closure.py; dominance shape as fallback).
 R-C33.3  the two switch classes are interpreted (base classes and helpers followed, the flag as shared module state) on every
          scenario  initial {F,T} x outer {enable, disable} x inside {nothing, nested with, plain call of either switch} x each
          block left {normally, by exception}: construction sets the switch's value, __enter__ leaves it, the inner exit restores
@@ -174,42 +177,45 @@ def run(ctx: Ctx) -> None:
     # capturing closures
     cn = idx.find_func("check_nested_func_def", "guppylang_internals.checker.func_checker")
     ctx.saw("functions", cn.qualname)
-    g = CFG(cn.node)
-    # the variable holding the captured variables: the dict passed on / tested; find `captured` by the gate's guard
-    gate = "check_capturing_closures_enabled"
-    gate_calls = [c for c in calls_in(cn.node) if call_name(c) == gate]
-    ctx.floor("R-C33.2", "capturing-closure gate calls in check_nested_func_def", len(gate_calls), 1)
-    from ..guards import lexical_guards
-    cap_names = set()
-    for c in gate_calls:
-        for e, pol in lexical_guards(cn.node, c) or []:
-            if isinstance(e, ast.Name) and pol:
-                cap_names.add(e.id)
-            if isinstance(e, ast.Compare) and isinstance(e.left, ast.Call) and dotted(e.left.func) == "len" and pol:
-                cap_names.add(dotted(e.left.args[0]))
-    if not cap_names:
-        ctx.undecided("R-C33.2", f"{cn.qualname}#closure-gate", cn.where, "gate is not guarded by a test of the captured-variable map")
-    else:
-        # the guard variable must be the captured-variable map that is used afterwards (flows into the result)
-        cap = sorted(cap_names)[0]
-        uses_after = [n for n in walk_no_nested(cn.node) if isinstance(n, ast.Name) and n.id == cap and isinstance(n.ctx, ast.Load)]
+    from . import c33_closure
+    if not c33_closure.run(ctx):
+        # fallback: the gate call is guarded by a test of the captured-variable map and dominates the sinks (shape)
+        g = CFG(cn.node)
+        # the variable holding the captured variables: the dict passed on / tested; find `captured` by the gate's guard
+        gate = "check_capturing_closures_enabled"
+        gate_calls = [c for c in calls_in(cn.node) if call_name(c) == gate]
+        ctx.floor("R-C33.2", "capturing-closure gate calls in check_nested_func_def", len(gate_calls), 1)
+        from ..guards import lexical_guards
+        cap_names = set()
+        for c in gate_calls:
+            for e, pol in lexical_guards(cn.node, c) or []:
+                if isinstance(e, ast.Name) and pol:
+                    cap_names.add(e.id)
+                if isinstance(e, ast.Compare) and isinstance(e.left, ast.Call) and dotted(e.left.func) == "len" and pol:
+                    cap_names.add(dotted(e.left.args[0]))
+        if not cap_names:
+            ctx.undecided("R-C33.2", f"{cn.qualname}#closure-gate", cn.where, "gate is not guarded by a test of the captured-variable map")
+        else:
+            # the guard variable must be the captured-variable map that is used afterwards (flows into the result)
+            cap = sorted(cap_names)[0]
+            uses_after = [n for n in walk_no_nested(cn.node) if isinstance(n, ast.Name) and n.id == cap and isinstance(n.ctx, ast.Load)]
 
-        def empty_branch(n, lab):  # leaving the test through the "nothing captured" edge is exempt
-            if n.kind != "test" or n.ast is None:
+            def empty_branch(n, lab):  # leaving the test through the "nothing captured" edge is exempt
+                if n.kind != "test" or n.ast is None:
+                    return False
+                t = n.ast
+                if isinstance(t, ast.Name) and t.id == cap:
+                    return lab == "F"
+                if isinstance(t, ast.UnaryOp) and isinstance(t.op, ast.Not) and dotted(t.operand) == cap:
+                    return lab == "T"
                 return False
-            t = n.ast
-            if isinstance(t, ast.Name) and t.id == cap:
-                return lab == "F"
-            if isinstance(t, ast.UnaryOp) and isinstance(t.op, ast.Not) and dotted(t.operand) == cap:
-                return lab == "T"
-            return False
 
-        sinks = [n for n in g.nodes if n.kind in ("stmt", "test") and any(call_name(c) in ("check_cfg", "CheckedNestedFunctionDef") for c in node_calls(n))]
-        ctx.floor("R-C33.2", "check_cfg/CheckedNestedFunctionDef sinks in check_nested_func_def", len(sinks), 2)
-        bad = [n.ast.lineno for n in sinks if not g.dominated_by(n, calls_any({gate}), edge_blocked=empty_branch)]
-        ctx.check(not bad and len(uses_after) >= 3, "R-C33.2", f"{cn.qualname}#captured-implies-gate", cn.where,
-                  {"captured_var": cap, "uses_of_captured_var": len(uses_after), "sinks": len(sinks), "sinks_reachable_without_gate": bad},
-                  "a nested function that captures variables is checked without passing the capturing-closures gate")
+            sinks = [n for n in g.nodes if n.kind in ("stmt", "test") and any(call_name(c) in ("check_cfg", "CheckedNestedFunctionDef") for c in node_calls(n))]
+            ctx.floor("R-C33.2", "check_cfg/CheckedNestedFunctionDef sinks in check_nested_func_def", len(sinks), 2)
+            bad = [n.ast.lineno for n in sinks if not g.dominated_by(n, calls_any({gate}), edge_blocked=empty_branch)]
+            ctx.check(not bad and len(uses_after) >= 3, "R-C33.2", f"{cn.qualname}#captured-implies-gate", cn.where,
+                      {"captured_var": cap, "uses_of_captured_var": len(uses_after), "sinks": len(sinks), "sinks_reachable_without_gate": bad},
+                      "a nested function that captures variables is checked without passing the capturing-closures gate")
 
     # ------------------------------------------------------------ R-C33.3
     classes = [c for c in idx.classes.values() if c.module.name == EXP and c.name.endswith("_experimental_features")]
